@@ -546,8 +546,31 @@ def run_requery(case, rec):
                     rec.fail("get_random_node:not-in-tree", repr(rn))
                     break
 
-    q = requery.run(case, rec, check)
+    tree_box = []
+
+    def check_and_keep(tree, rec, eng):
+        if not tree_box:
+            tree_box.append(tree)
+        check(tree, rec, eng)
+
+    q = requery.run(case, rec, check_and_keep)
     rec.nt(bool(q and q >= 2 and len(case["ops"]) >= 2))
+    # directed last step: a childless node that is the only child of its parent is removed with keep_children=True
+    # (there is nothing to keep): the parent is a leaf afterwards, whatever its child slot looks like inside - all
+    # traversal clauses (skip / stop at every node in every order) are evaluated once more
+    if not rec.failed and tree_box:
+        tree = tree_box[0]
+        w = walk(tree)
+        if w.problems:
+            return
+        only = [n for n in w.pre if not w.kids[id(n)] and w.parent[id(n)] is not None and len(w.kids[id(w.parent[id(n)])]) == 1]
+        if only:
+            try:
+                only[case["start"] % len(only)].remove(keep_children=True)
+            except Exception:  # noqa: BLE001  (C04's subject)
+                return
+            rec.cls("after-un-nesting-a-childless-only-child")
+            check_at(tree, None, rec)
 
 
 @st.composite
